@@ -143,10 +143,10 @@ class EFloatFormat(EncodableFormat):
     def representable_in(self, x: RealFloat | Float) -> bool:
         match x:
             case Float():
-                if x.isinf and not self.enable_inf:
-                    return False
-                if x.isnan and self.nan_kind == EFloatNanKind.NONE:
-                    return False
+                if x.isinf:
+                    return self.enable_inf
+                if x.isnan:
+                    return self.nan_kind != EFloatNanKind.NONE
             case RealFloat():
                 pass
             case _:
@@ -279,6 +279,8 @@ class EFloatFormat(EncodableFormat):
                     ebits = bitmask(self.es)
                     mbits = bitmask(self.m)
                 case EFloatNanKind.NEG_ZERO:
+                    # NaN takes the place of negative zero, whatever its sign
+                    sbit = 1
                     ebits = 0
                     mbits = 0
                 case _:
@@ -290,8 +292,9 @@ class EFloatFormat(EncodableFormat):
                     mbits = 0
                 case EFloatNanKind.MAX_VAL:
                     if self.pmax == 1:
+                        # no mantissa bits: infinity is the exponent field just below NaN
                         ebits = bitmask(self.es) - 1
-                        mbits = 1
+                        mbits = 0
                     else:
                         ebits = bitmask(self.es)
                         mbits = bitmask(self.m) - 1
